@@ -3,7 +3,7 @@
    next detection" token for parents: a peer that applies a link from the network re-announces it.
 
    Rust: /repo/src/server/track.rs  entity_parented_on_server, client/track.rs entity_parented_on_client,
-         server/receiver.rs + client/receiver.rs (Message::EntityParented), server/initial_sync.rs
+         server/receiver.rs + client/receiver.rs (Message::EntityParented), full_sync/mod.rs build_full_sync
          (the snapshot contains one EntityParented per parented synchronized entity).
    Frame-level model: theories/Sync/Model.v  entity_parented_server, entity_parented_client,
          CSetParentSrv, CSetParentCli, add_child, set_parent_twice, parent_differs, snapshot_parent_msgs.
@@ -215,6 +215,26 @@ Fixpoint s19_from (t : option puid) (s : pstate) (tr : list pevent) : bool :=
       end
   end.
 Definition known_S19 (s : pstate) (tr : list pevent) : bool := s19_from (ppar s host) s tr.
+
+(* the literal reading, for histories without joins: [g] = the parent given by a PSet since the
+   state was last quiescent; two PSet with different parents and no quiescent state in between.
+   [known_S19_literal_nojoin] (ParentsProofs.v): the two classes coincide on join-free histories. *)
+Fixpoint s19_lit_from (g : option puid) (s : pstate) (tr : list pevent) : bool :=
+  match tr with
+  | [] => false
+  | e :: tr =>
+      let g := if pquiescentb s then None else g in
+      match pstep s e with
+      | None => false
+      | Some s' =>
+          match e with
+          | PSet _ u => match g with Some u' => negb (bool_decide (u' = u)) | None => false end
+                        || s19_lit_from (Some u) s' tr
+          | _ => s19_lit_from g s' tr
+          end
+      end
+  end.
+Definition known_S19_literal (s : pstate) (tr : list pevent) : bool := s19_lit_from None s tr.
 
 (* [joins_safe]: at every PJoin the host has no parent for the child or already has the parent
    given by the last PSet (true in particular for every join at a quiescent state of a history
